@@ -124,6 +124,7 @@ func (state *RuntimeState) addUserHandler(w http.ResponseWriter,
 		return
 	}
 	// Check if username already exists.
+	defer state.lockUserProfile(username)()
 	profile, existing, fromCache, err := state.LoadUserProfile(username)
 	if err != nil {
 		state.logger.Printf("error parsing err=%s", err)
@@ -165,6 +166,7 @@ func (state *RuntimeState) deleteUserHandler(w http.ResponseWriter,
 	if username == "" {
 		return
 	}
+	defer state.lockUserProfile(username)()
 	if err := state.DeleteUserProfile(username); err != nil {
 		state.logger.Printf("error parsing err=%s", err)
 		state.writeFailureResponse(w, r, http.StatusInternalServerError, "")
@@ -190,6 +192,7 @@ func (state *RuntimeState) generateBootstrapOTP(w http.ResponseWriter,
 	if username == "" {
 		return
 	}
+	defer state.lockUserProfile(username)()
 	profile, existing, fromCache, err := state.LoadUserProfile(username)
 	if err != nil {
 		state.logger.Printf("error parsing err=%s", err)
